@@ -38,8 +38,16 @@ def history(rng):
                     answered.add(t2)
             # the harness's next command may or may not dispatch what is on the way: always settle it first, except
             # before a block (which is exactly the case "reply already on the way")
-            if rng.random() < 0.25 and not closed:
+            rr = rng.random()
+            if rr < 0.25 and not closed:
                 cmds.append(['block', cmds[-1][1] if cmds[-1][2] != 'bogus' else rng.choice(sorted(answered) or [cmds[-1][1]])]) if answered else None
+            elif rr < 0.5:
+                # the reply is on the way, or already read into the incoming queue but not dispatched, when the caller
+                # cancels (or merely looks): a cancelled call must stay silent when the queue is dispatched
+                victim = cmds[-1][1]
+                if rng.random() < 0.7:
+                    cmds.append(['fetch'])
+                cmds.append([rng.choice(['cancel', 'cancel', 'poll']), victim])
             cmds.append(['pump', 30])
         elif r < 0.63 and live:
             cmds.append(['cancel', rng.choice(live)])
@@ -123,6 +131,8 @@ def build_record(cmds, outs, times):
                 state[tag] = 'done'
             recs.append({'k': 'block', 'tag': tag, 'completed': o['completed'], 'notified': o['notified']})
             # other timers may have run while blocked: re-check at the following pump
+        elif k == 'fetch':
+            recs.append({'k': 'fetch'})
         elif k in ('poll', 'steal'):
             tag = c[1]
             if state.get(tag) == 'pending':
